@@ -47,7 +47,7 @@ def main():
     # deductive part: the state-layout loop of ComputeGraph.to_func (bounded stand-in if undecided: the layout clause below)
     chk.run_contracts("contracts.c01", names=["ComputeGraph.to_func@state-layout"], fallback={"*": lambda: []})
     cases = families(chk.tier, chk.seed)
-    driver.run_family(
+    results = driver.run_family(
         chk, "get_run_func-vs-spec_rhs", cases, case_fn, site="C01/get_run_func",
         rule="structured families (operator chains in every declaration order, 1-3 parallel edges, two input variables "
              "with one multiply driven in both declaration orders, op+edge fan-in, two variables of one node into one "
@@ -57,6 +57,8 @@ def main():
              "(rtol 1e-8); distinct = distinct (model, vectorize) with >= 1 edge or >= 2 operators",
         nontrivial=lambda c: bool(c["model"].get("edges")) or any(len(n["ops"]) > 1 for n in c["model"].get("nodes", {}).values()),
         sample_of=lambda c: dict(tag=c["tag"], vec=c["vec"], model=c["model"]))
+    driver.run_sequences(chk, "get_run_func-vs-spec_rhs-in-sequence", cases, results, case_fn, site="C01/get_run_func",
+                         limit=30 if chk.tier == "quick" else 200, seed=chk.seed)
     rc = chk.finish(
         explanation="Deductive (small core): the state-layout loop of ComputeGraph.to_func gives the k-th state variable the range "
                     "[start_k, start_k + npos_k) with start_0 = 0, start_{k+1} = stop_k, pairwise disjoint, for ANY number of variables and "
@@ -65,7 +67,7 @@ def main():
                     "trees evaluated directly, never parsed) and evaluated on every model of the families above. Deduction "
                     "over the sympy/networkx/exec pipeline is out of reach of any verifier installed here.",
         assumptions=["the MDL -> PyRates rendering and spec_rhs are harness code (trusted)", "float64, element-wise tolerance 1e-8",
-                     "each case runs in a fresh forked child, so no process-global cache leaks between cases"])
+                     "single cases run in a fresh forked child each; the in-sequence family runs groups of three in one process with pyrates.clear(model) between them"])
     sys.exit(rc)
 
 
